@@ -376,6 +376,93 @@ def record_and_validate(ctx, family, ncases, maxrows, extra_judge=None):
     return n
 
 
+# ---- typed directive tables (attribute / item accessors): hidden keys of the same datatype as a visible target ------
+TYPED_LEDGER_HEAD = """
+option "name_assets" "Ab"
+2020-01-01 open Ab:Ca
+2020-01-01 open Ab:Da
+"""
+
+
+def typed_tables_leg(ctx, family, nstmts):
+    """ORDER BY / GROUP BY over #transactions and #notes, whose accessors are generic attribute getters: a key that is
+    not selected must not be merged with a selected column of the same datatype.  Judged by TLC (Trace_Select)."""
+    import datetime
+    from beancount import loader
+    rng = ctx.rng
+    words = ['a', 'ab', 'b', 'ba', 'c', 'ca', 'B', 'Ab', 'd e', 'f']
+    lines = [TYPED_LEDGER_HEAD]
+    day = datetime.date(2020, 1, 2)
+    for i in range(14):
+        day += datetime.timedelta(days=rng.randint(0, 2))
+        payee, narr = rng.choice(words), rng.choice(words)
+        flag = rng.choice(['*', '!'])
+        lines.append('%s %s "%s" "%s"\n  Ab:Ca  1 USD\n  Ab:Da  -1 USD\n' % (day.isoformat(), flag, payee, narr))
+        if i % 2 == 0:
+            lines.append('%s note Ab:%s "%s"\n' % (day.isoformat(), rng.choice(['Ca', 'Da']), rng.choice(words)))
+    entries, errors, options = loader.load_string('\n'.join(lines))
+    conn = beanquery.connect('beancount:', entries=entries, errors=errors, options=options)
+    tables = {'transactions': [('date', 'date'), ('flag', 'str'), ('payee', 'str'), ('narration', 'str')],
+              'notes': [('date', 'date'), ('account', 'str'), ('comment', 'str')]}
+    path = ctx.path('select_typed_%s.ndjson' % family)
+    n = 0
+    with open(path, 'w') as f:
+        for tname, cols in tables.items():
+            names = [c for c, _ in cols]
+            base = conn.execute('SELECT %s FROM #%s' % (', '.join(names), tname)).fetchall()
+            rows = [{c: dict(zip(('t', 'n', 'd', 's'), bql.from_py(v)), l=[]) for c, v in zip(names, r)} for r in base]
+            sch = dict(cols)
+            for _ in range(nstmts):
+                q = {'targets': [], 'where': {'k': 'none'}, 'group': [], 'having': {'k': 'none'}, 'order': [], 'pivot': [],
+                     'distinct': False, 'limit': -1}
+                vis = rng.sample(names, rng.randint(1, 2))
+                hidden = [c for c in names if c not in vis]
+                col = RandomQueries.col
+                if family == 'order':
+                    q['targets'] = [{'e': col(c), 'as': ''} for c in vis]
+                    keys = rng.sample(hidden, min(len(hidden), rng.randint(1, 2))) + (rng.sample(vis, 1) if rng.random() < 0.3 else [])
+                    q['order'] = [{'r': {'k': 'expr', 'e': col(c) if rng.random() < 0.8 else {'k': 'call', 'f': 'upper', 'args': [col(c)]}
+                                         if sch[c] == 'str' else col(c)}, 'desc': rng.random() < 0.5} for c in keys]
+                else:
+                    q['targets'] = [{'e': col(c), 'as': ''} for c in vis] + [{'e': {'k': 'agg', 'f': 'count', 'a': {'k': 'star'}}, 'as': 'n'}]
+                    keys = vis + rng.sample(hidden, min(len(hidden), rng.randint(0, 2)))
+                    rng.shuffle(keys)
+                    if rng.random() < 0.25 and hidden:
+                        keys = [k for k in keys if k != vis[0]] or [hidden[0]]      # a visible target left uncovered: must be rejected
+                    q['group'] = [{'k': 'expr', 'e': col(c)} for c in keys]
+                status, desc, out = selectq.run_query(conn, selectq.query_ast(q, tname))
+                ev = {'id': n + 1, 'sch': sch, 'rows': rows, 'q': q, 'ok': status != 'rejected', 'names': [], 'types': [], 'out': []}
+                if status == 'ok':
+                    ev['names'] = [c.name for c in desc]
+                    ev['types'] = [([k for k, v in selectq.TYPEMAP.items() if v is c.datatype] or [c.datatype.__name__])[0] for c in desc]
+                    ev['out'] = selectq.proj_rows(out)
+                elif status == 'error':
+                    ev['exc'] = type(desc).__name__
+                    ev['out'] = [[['exc', 0, 1, type(desc).__name__]]]
+                ev['table'] = tname
+                f.write(json.dumps(ev) + '\n')
+                n += 1
+                ctx.case('typed:' + tname + ':' + selectq.q_key(q), True)
+    if errors or len(entries) < 10:
+        raise MachineryError('typed-table ledger did not load: %s' % (errors[:2],))
+    res = ctx.tlc('Trace_Select', 'Trace_Select.cfg', leg='C2S-typed', workers=1, env={'TRACE_FILE': path}, timeout=ctx.pick(900, 3600))
+    with open(path) as f:
+        lines = f.read().split('\n')
+    nrej = 0
+    for rj in res.printed:
+        if isinstance(rj, dict) and rj.get('verdict') == 'rejected':
+            ev = json.loads(lines[rj['line'] - 1])
+            nrej += 1
+            ctx.violation('typed-table:%s:%s:%s' % (ev['table'], family, rj['clause'].replace(' ', '-')),
+                          'statement over a typed directive table not explained by the specification: ' + rj['clause'],
+                          {'q': ev['q'], 'text': selectq.query_text(ev['q'], ev['table']), 'rows': ev['rows'], 'sch': ev['sch']}, 'C2S',
+                          rj.get('expected'), {'ok': ev['ok'], 'out': ev['out'][:10]})
+    if res.post_failed or res.depth - 1 != n:
+        raise MachineryError('Trace_Select did not consume the typed-table trace')
+    ctx.traces += n - nrej
+    ctx.leg('C2S-typed', lines=n, rejected=nrej)
+
+
 def replay_case(ctx, rep):
     """./check --replay for a saved SELECT case (S2C: table code + query; C2S: logged rows + query)"""
     case = rep['case']
